@@ -80,10 +80,12 @@ def run(ctx):
                         "exactly the passed values; sweep over all 22 optimizers, spaces 1-4 dims incl. size-1 dims and "
                         "sizes up to 1000, unsorted/descending/float arrays, random hyper-parameters, with/without "
                         "constraints, repeated calls; plus, per optimizer, two longer runs with every hyper-parameter at or beyond the end of its "
-                        "usual range (simplex sigma > 1, swarm weights 3-4, pattern size 2, ...); distinct by (optimizer, seed, shape)")
+                        "usual range (simplex sigma > 1, swarm weights 3-4, pattern size 2, ...) and short runs on spaces whose index range crosses an "
+                        "integer-width boundary (129-300 points next to a short dimension, ~33000 points in one dimension); distinct by (optimizer, seed, shape)")
     n_fast, n_slow = (108, 8) if ctx.quick else (720, 80)
     specs = sweep.sweep_specs(ctx, "c01", n_fast, n_slow, constraint=0.4, big_spaces=True) \
-        + sweep.extreme_specs(ctx, "c01", rounds=(1 if ctx.quick else 4))
+        + sweep.extreme_specs(ctx, "c01", rounds=(1 if ctx.quick else 4)) \
+        + sweep.dtype_edge_specs(ctx, "c01", per=(2 if ctx.quick else 6))
     for spec in specs:
         out = instr.run_steps(spec)
         ctx.monitor_runs += 1
